@@ -227,6 +227,17 @@ func (ex *Exec) VerifyFunction(fn *ssa.Function, key string, ct *Contract) (res 
 		v := ex.symbolicValue(st, fv.Type(), fv.Name(), 0)
 		if p, ok := v.(*VPtr); ok {
 			p.Nil = False
+			// attr freevar.<name> = <function key>: the captured variable holds that (closure-free) function
+			// of the enclosing function (assigned once there); calls through it use that function's contract
+			if ct != nil && p.Obj != nil {
+				if fk := ct.Attrs["freevar."+fv.Name()]; fk != "" {
+					if target, ok := ex.FuncByKey[ct.Pkg+"."+fk]; ok && len(target.FreeVars) == 0 {
+						st.mem[p.Obj] = &VFunc{Fn: target, Nil: False, Sym: fv.Name()}
+					} else {
+						ex.unsupported("attr freevar.%s: function %s not found or it captures variables", fv.Name(), fk)
+					}
+				}
+			}
 		}
 		fr.regs[fv] = v
 		st.paramVals[fv.Name()] = v
